@@ -38,3 +38,30 @@ impl RandomCircuitBuilder {
         c.push(Gate::new(CNOT, vec![q0, q1]));
     }
 }
+
+pub struct RandomPauliGadgetCircuitBuilder {
+    pub rng: StdRng,
+    pub phase_denom: usize,
+}
+
+impl RandomPauliGadgetCircuitBuilder {
+    /// control (C19 R-RANGE-nonclifford): denominators 6, 10, .. take the unrestricted arm
+    pub fn build(&mut self) -> usize {
+        let phase_num = if self.phase_denom >= 4 && self.phase_denom % 4 == 0 {
+            let mut p = self.rng.random_range(1..(2 * self.phase_denom) - 3);
+            if p >= self.phase_denom / 2 {
+                p += 1;
+            }
+            if p >= self.phase_denom {
+                p += 1;
+            }
+            if p >= (3 * self.phase_denom) / 2 {
+                p += 1;
+            }
+            p
+        } else {
+            self.rng.random_range(1..2 * self.phase_denom)
+        };
+        phase_num
+    }
+}
